@@ -53,7 +53,7 @@ type Case struct {
 // every exported RPC method of the NETCONF driver that takes no per-operation timeout itself
 var ncKinds = []string{"lock", "unlock", "commit", "discard", "copy-config", "delete-config", "edit-config", "validate", "get-config", "rpc", "subscribe"}
 
-var ops = []string{"getprompt", "cmd", "cmds", "interactive", "acquire", "acquire-auth", "acquire-down", "ncmd", "nconfigs", "nc-open", "nc-get", "nc-lock", "login-telnet", "login-ssh", "open-hook"}
+var ops = []string{"getprompt", "cmd", "cmds", "interactive", "acquire", "acquire-auth", "acquire-down", "ncmd", "nconfigs", "ninteractive", "nc-open", "nc-get", "nc-lock", "login-telnet", "login-ssh", "open-hook"}
 
 const (
 	connTimeout = time.Second
@@ -112,6 +112,9 @@ type scenario struct {
 	single     bool        // single-step: lower bound applies
 	privErr    bool        // a stall may surface as a privilege error
 	perOp      bool        // honours a per-operation timeout
+	// finalLine (multi-step operations whose last step takes the per-operation timeout): once the
+	// device has received this line the stall lies in that last step
+	finalLine string
 	trailing   int         // bytes at the end of the exchange that are not needed for success
 	inputClean func() bool // true once the command's return reached the device
 	lines      func() []string
@@ -298,7 +301,7 @@ func build(c *Case) (*scenario, error) {
 			}
 			s.wantResult = ""
 		}
-	case "acquire", "acquire-auth", "acquire-down", "ncmd", "nconfigs":
+	case "acquire", "acquire-auth", "acquire-down", "ncmd", "nconfigs", "ninteractive":
 		dev, _ := cliDevice(c)
 		s.pipe = sim.NewPipe(dev)
 		s.pipe.Plan = c.Plan
@@ -351,6 +354,7 @@ func build(c *Case) (*scenario, error) {
 		case "ncmd":
 			s.perOp = true
 			s.privErr = true
+			s.finalLine = c.Cmd
 			s.op = func(o []util.Option) (string, error) {
 				r, e := d.SendCommand(c.Cmd, o...)
 				if e != nil {
@@ -360,6 +364,24 @@ func build(c *Case) (*scenario, error) {
 				return r.Result, nil
 			}
 			s.wantResult = sim.NormOutput(c.Out)
+		case "ninteractive":
+			// the interactive operation through the network driver (after its implicit privilege
+			// change, which runs on the connection-wide timeout)
+			s.perOp = true
+			s.privErr = true
+			s.finalLine = "q " + c.Cmd
+			s.op = func(o []util.Option) (string, error) {
+				r, e := d.SendInteractive([]*channel.SendInteractiveEvent{
+					{ChannelInput: "q " + c.Cmd, ChannelResponse: `\[y/n\]:`},
+					{ChannelInput: "y"},
+				}, o...)
+				if e != nil {
+					return "", e
+				}
+
+				return r.Result, nil
+			}
+			s.wantResult = ""
 		case "nconfigs":
 			s.perOp = true
 			s.op = func(o []util.Option) (string, error) {
@@ -450,7 +472,9 @@ func build(c *Case) (*scenario, error) {
 			s.wantResult = fmt.Sprintf(`<rpc-reply xmlns="%s" message-id="101"><data>v101</data></rpc-reply>`, sim.BaseNS)
 		case "nc-lock":
 			s.prepare = d.Open
-			s.op = func([]util.Option) (string, error) {
+			// (the methods that take operation options take a per-operation timeout)
+			s.perOp = c.NCKind == "commit" || c.NCKind == "get-config" || c.NCKind == "rpc"
+			s.op = func(o []util.Option) (string, error) {
 				var (
 					r *response.NetconfResponse
 					e error
@@ -460,7 +484,7 @@ func build(c *Case) (*scenario, error) {
 				case "unlock":
 					r, e = d.Unlock("candidate")
 				case "commit":
-					r, e = d.Commit()
+					r, e = d.Commit(o...)
 				case "discard":
 					r, e = d.Discard()
 				case "copy-config":
@@ -472,9 +496,9 @@ func build(c *Case) (*scenario, error) {
 				case "validate":
 					r, e = d.Validate("candidate")
 				case "get-config":
-					r, e = d.GetConfig("running")
+					r, e = d.GetConfig("running", o...)
 				case "rpc":
-					r, e = d.RPC(opoptions.WithFilter("<x/>"))
+					r, e = d.RPC(append([]util.Option{opoptions.WithFilter("<x/>")}, o...)...)
 				case "subscribe":
 					r, e = d.EstablishPeriodicSubscription("/a/b", 1000)
 				default:
@@ -668,7 +692,7 @@ func run(c Case) ev.Verdict {
 		mode = "conn"
 	}
 
-	if mode == "op-zero" && (c.Op == "ncmd" || c.Op == "nconfigs") {
+	if mode == "op-zero" && (c.Op == "ncmd" || c.Op == "nconfigs" || c.Op == "ninteractive") {
 		// the per-operation value only governs the final command; the implicit privilege change
 		// runs on the connection-wide timeout, so "waits indefinitely" is not claimed for these
 		mode = "op-larger"
@@ -794,6 +818,19 @@ func run(c Case) ev.Verdict {
 		upper = maxDur(applicable, connTimeout) + slack
 	}
 
+	finalStarted := false
+
+	if s.finalLine != "" && s.lines != nil && mode != "conn" {
+		for _, l := range s.lines() {
+			finalStarted = finalStarted || l == s.finalLine
+		}
+	}
+
+	if finalStarted {
+		// the implicit steps are over: the per-operation timeout is the one in force
+		upper = applicable + slack
+	}
+
 	if s.open {
 		upper += closeGrace
 	}
@@ -811,7 +848,7 @@ func run(c Case) ev.Verdict {
 	}
 
 	// (coarse on purpose: it has to tell the competing timeouts apart, not to pin the polling cadence)
-	if s.single && !s.privErr && elapsed < applicable*9/10 {
+	if ((s.single && !s.privErr) || finalStarted) && elapsed < applicable*9/10 {
 		return ev.Fail("%s: returned after %v, before its timeout %v (precedence of the per-operation timeout)", c.Op, elapsed, applicable)
 	}
 
@@ -899,10 +936,22 @@ func enumerateK(t *testing.T) {
 
 	idx, ran := 0, 0
 
+	type opKind struct{ op, kind string }
+
+	var all []opKind
 	for _, op := range ops {
+		all = append(all, opKind{op, ""})
+	}
+
+	// the rpc methods that take operation options, each with a per-operation timeout
+	all = append(all, opKind{"nc-lock", "commit"}, opKind{"nc-lock", "get-config"}, opKind{"nc-lock", "rpc"})
+
+	for _, ok := range all {
+		op := ok.op
+
 		for _, mode := range []string{"conn", "op-smaller"} {
 			for _, plan := range [][]int{nil, {1}, {3, 0, 7}} {
-				base := Case{Op: op, Cmd: "show inventory Q", Out: []string{"line one", "  line two  "}, NextCmd: "next =", TimeoutMode: mode,
+				base := Case{Op: op, NCKind: ok.kind, Cmd: "show inventory Q", Out: []string{"line one", "  line two  "}, NextCmd: "next =", TimeoutMode: mode,
 					Plan: plan, ReadSize: 8192, ReadDelayNS: int64(250 * time.Microsecond), Version: "1.1", KAbs: 0}
 
 				for k := 0; k < 400; k++ {
